@@ -4,7 +4,7 @@ TECH = "bounded symbolic execution of the go/ssa form of the real functions; eve
 
 CHECKS = {
  "C16": {
-  "text": "Bounded symbolic model checking: UnmarshalBytes/String/Uint/Byte/Uint16/32/64 are executed symbolically from their SSA with the input length (0..12 quick, 0..20 thorough) and every input byte as solver variables; z3 shows on every path that no bounds/slice panic is reachable, that consumed lies in [1,len] on success and is 0 on error, and that the result is the decoded sub-range (aliasing the input iff newBuf is false). Holds for every byte string within the length bound, including all 64-bit length prefixes.",
+  "text": "Bounded symbolic model checking: UnmarshalBytes/String/Uint/Byte/Uint16/32/64 are executed symbolically from their SSA with the input length (0..12 quick, 0..16 thorough; inputs are windows into a longer backing array, len < cap) and every input byte as solver variables; z3 shows on every path that no bounds/slice panic is reachable, that consumed lies in [1,len] on success and is 0 on error, and that the result is the decoded sub-range (aliasing the input iff newBuf is false). Holds for every byte string within the length bound, including all 64-bit length prefixes.",
   "note": "Trusted: the gosx SSA-to-SMT translation (validated per run by executing solver models of passing paths natively), z3; fmt.Errorf and the two unsafe cast helpers are engine intrinsics. Inputs longer than the bound are outside the claim.",
   "technique": TECH,
  },
@@ -20,7 +20,7 @@ CHECKS = {
  },
  "C17": {
   "text": "Bounded symbolic model checking in four groups: (1) constructor validation for every 64-bit block size rejected by GetBlocksInSegment (must return ErrInvalid, no panic) and every accepted size up to 1 (quick) / 3 (thorough) pages with symbolic buffer size; (2) index arithmetic of Block/getBlockIdxInHdr for constant block sizes, 1..65536 segments and all index pairs: ranges disjoint, inside their segment, outside headers, header bits injective (z3 with cvc5 --solve-bv-as-int=sum as fallback for the division-heavy obligations); (3) inductive step on the real in-memory buffer with all bytes symbolic and any free-hint satisfying the invariant: ArrangeBlock/FreeBlock/Block change exactly one header bit or nothing, ErrExhausted iff nothing free, Available tracks, lock-set check on header bytes/freeIdx; (4) reopening arbitrary bytes reproduces the allocated set.",
-  "note": "Trusted: gosx translation (self-checked natively), z3/cvc5; os.Getpagesize()=4096; Buffer contract stub in groups 1-2; sync.Mutex/atomic intrinsics. Bitmap reasoning only for block sizes <= 4 (quick) / 8 (thorough) and <= 3 segments; the memory-mapped backend and real concurrency beyond the lock-set argument are outside the claim.",
+  "note": "Trusted: gosx translation (self-checked natively), z3/cvc5; os.Getpagesize()=4096; Buffer contract stub in groups 1-2; sync.Mutex/atomic intrinsics. Bitmap reasoning only for block sizes <= 4 (quick) / 8 (thorough) and <= 2 / 3 segments; the memory-mapped backend and real concurrency beyond the lock-set argument are outside the claim.",
   "technique": TECH + "; inductive step from a symbolic invariant state; lock-set check",
  },
  "C18": {
@@ -99,7 +99,7 @@ CHECKS = {
   "technique": TECH + "; bounded symbolic scheduling with discrete-event symbolic time",
  },
  "C20": {
-  "text": "Bounded symbolic model checking of the path logic: (a) UnzipToFolder with an archive of 1 (quick) / 2 (thorough) entries whose names are arbitrary ASCII strings of length 1..4 / 1..6 (every byte a solver variable): every directory/file it asks the OS to create lies inside the destination, entries that stay inside land at destDir+name - filepath.Split/Join/Clean and zip.FileHeader.FileInfo run from their real SSA; counterexamples are replayed natively with a real archive in a temporary directory; (b) ZipFolder's walk callback on symbolic small trees (files/dirs, depth 1-2, names with spaces/dots, source dir with/without trailing slash, filter answers symbolic, recursive flag): archived names == selected relative paths, and UnzipToFolder maps them back.",
+  "text": "Bounded symbolic model checking of the path logic: (a) UnzipToFolder with an archive of 1 entry with a name of 1..5 bytes (quick) / 2 entries of 1..4 bytes and 1 entry of 1..7 bytes (thorough), every byte a solver variable, content modelled by its length, destination possibly holding an older longer file: every directory/file it asks the OS to create lies inside the destination, entries that stay inside land at destDir+name - filepath.Split/Join/Clean and zip.FileHeader.FileInfo run from their real SSA; counterexamples are replayed natively with a real archive in a temporary directory; (b) ZipFolder's walk callback on symbolic small trees (files/dirs, depth 1-2, names with spaces/dots, source dir with/without trailing slash, filter answers symbolic, recursive flag): archived names == selected relative paths, and UnzipToFolder maps them back.",
   "note": "Trusted: gosx translation (containment self-checked natively), z3; os/io/zip reader-writer/filepath.Walk are recording contract stubs with a minimal directory model. Content round trip (DEFLATE), permissions, symlinks, unicode, clashes, long names are outside the claim.",
   "technique": TECH + "; environment (file system, archive) as recording stubs",
  },
